@@ -45,6 +45,18 @@ Section C20.
     exists e, In (time_prefix ++ e) (tcavs t) /\ verify_expiry e now = true.
   Proof. destruct IC. intros. eapply validate_sound; eauto. Qed.
 
+  (* conversely: minted under the validating key with exactly the three required caveats,
+     in any order, with the expiry in the future, it validates *)
+  Theorem well_formed_token_validates : forall key user now e cavs,
+    in_int64 e -> now < e ->
+    In cavs (perms3 gen_caveat (user_prefix ++ user) (time_prefix ++ print_int e)) ->
+    validate key user now (mint sigT mac0 macS key user cavs) = true.
+  Proof.
+    destruct IC as [_ _ _ Heq]. intros. unfold Model.validate, Model.mint; cbn [tsig tid tcavs].
+    apply andb_true_iff; split; [apply Heq; reflexivity|].
+    eapply verify_caveats_complete_perm; eauto.
+  Qed.
+
   Theorem minted_under_other_key_refused : forall key key' id cavs user now,
     key <> key' -> validate key' user now (mint sigT mac0 macS key id cavs) = false.
   Proof. destruct IC. intros. eapply other_key_refused; eauto. Qed.
@@ -96,6 +108,7 @@ Print Assumptions token_validates_iff.
 Print Assumptions token_expires.
 Print Assumptions token_reveals_user.
 Print Assumptions validated_token_shape.
+Print Assumptions well_formed_token_validates.
 Print Assumptions minted_under_other_key_refused.
 Print Assumptions extended_token_refused.
 Print Assumptions altered_token_refused.
